@@ -179,7 +179,7 @@ func (x *Exec) lockAccess(st *State, sname, path, ref, what string) {
 	if st.held != 1 {
 		// Stop()'s tail: after the Shutdown state has been published under the lock and the
 		// background loops have been waited for, Stop() owns the declared stop-owned fields.
-		if x.e.db.StopOwned[key] && x.top.Key == "Raft.Stop" {
+		if (x.e.db.StopOwned[key] || (x.e.db.StopRead[key] && what == "read" && x.mapMut == 0)) && x.top.Key == "Raft.Stop" {
 			if recv := x.rootRecv(); recv != nil {
 				if stoppedClause == nil {
 					ce, err := ParseCExpr("r.state == Shutdown")
@@ -199,7 +199,7 @@ func (x *Exec) lockAccess(st *State, sname, path, ref, what string) {
 	}
 	// Fields that Stop() touches without the lock once it has published the Shutdown state: holding
 	// the lock does not protect an access to them, knowing that the node is not shut down does.
-	if x.e.db.StopOwned[key] && !x.e.db.StopExempt[x.top.Key] {
+	if (x.e.db.StopOwned[key] || (x.e.db.StopRead[key] && (what == "write" || x.mapMut > 0))) && !x.e.db.StopExempt[x.top.Key] {
 		recv := x.rootRecv()
 		if recv == nil {
 			return
